@@ -169,8 +169,8 @@ PROPS = {
         thorough=[S_('probes', nc=1, items=('hint_history', 'pok_forms_bound', 'pok_remarks_c18')), S_('cacheid', nc=8, count=6000), S_('cache', maxlen=4), S_('modorder'), S_('pokm'), S_('lateattr', nc=1), S_('probes', nc=1, items=('owner_binding',)), S_('redecorate', nc=4)],
         runtime_part='the garbage collector and weakref callbacks (observed through weak references after gc.collect())',
         level_text='The descriptor cache is a heap-reachability model over arbitrary operation histories: no retention with the weak-value dictionary is a theorem (and retention with the '
-                   'pinned weak-key one is its refutation, D7, repaired); order independence of stacked modifiers is the theorem prepare_set_ext. Real histories (all of length <= 3/4 over '
-                   'two instances x four descriptor kinds, plus seeded longer ones) are compared with the model through weak references (partial).',
+                   'pinned weak-key one is its refutation, D7, repaired; a bound method stored under itself is retained, retention_selfEntry_refuted, D91, repaired: no_retention_noStore); order independence of stacked modifiers is the theorem prepare_set_ext. Real histories (all of length <= 3/4 over '
+                   'two instances x eight descriptor kinds, plus seeded longer ones) are compared with the model through weak references (partial).',
         level_note=NOTE + 'the garbage collector, weakref.',
     ),
     'C05': dict(
@@ -181,7 +181,7 @@ PROPS = {
                   S_('progexec', count=60000, ops=('progexec',)), S_('probes_c05', nc=1)],
         runtime_part='name resolution through real globals / closures / attributes / bound arguments, decorator plumbing, execution of the generated wrappers',
         level_text='The AST walker is modelled on a generic tree covering every Python node type; that it is total and that, on every program of an inductively defined forwarding grammar '
-                   '(unbounded length and nesting), it reports a star as forwarded only when it is pristine at the call (visitor = ground truth) are theorems; soundness of the reported signature '
+                   '(unbounded length and nesting), it reports a star as forwarded only when it is pristine at the call (visitor = ground truth; visitor_eq_truth_named: also on the tree in which nested definitions are named, a store of the name followed by the function, which is what the real visitor sees since repair D85) are theorems; soundness of the reported signature '
                    'then follows from the forwards/merge theorems. Ties to /repo: the Lean walker vs the real CallListerVisitor on the AST of every star-taking corpus function and of generated '
                    'programs; the whole discovery (parameters + provenance) vs the model; generated wrappers are really executed on all non-colliding shapes (partial: two recorded findings D19, D23).',
         level_note=NOTE + 'runtime name resolution, execution; ' + BINDER + '.',
@@ -201,7 +201,7 @@ PROPS = {
         quick=[S_('probes', nc=1, items=('odd_defaults_c07', 'cycle_reload', 'self_forwarding_hint', 'na_defaults')), S_('visitor_corpus', limit=4000), S_('visitor_adv', nc=4), S_('chain', nc=4), S_('examine', nc=4), S_('probes', nc=3, items=('adversarial2', 'other_thread', 'adversarial3')), S_('retrieve'), S_('programs', count=16000, routes=('self', 'param'), ops=('pauto',))],
         thorough=[S_('probes', nc=1, items=('odd_defaults_c07', 'cycle_reload', 'self_forwarding_hint', 'na_defaults')), S_('visitor_corpus'), S_('visitor_adv', nc=4), S_('chain', nc=4), S_('examine', nc=4), S_('probes', nc=3, items=('adversarial2', 'other_thread', 'adversarial3')), S_('retrieve'), S_('programs', count=160000, routes=('self', 'param'), ops=('pauto',))],
         runtime_part='what inspect, getsource, ast.parse, getattr and Sphinx raise on real objects (validated over the corpus, not proved)',
-        level_text='Totality of the AST walker on arbitrary trees (theorem visitor_total: the deferred-call queue always drains) and of the fallback chain of the model; the real retrieval is run over every '
+        level_text='Totality of the AST walker on arbitrary trees (theorem visitor_total: the deferred-call queue always drains), of the fallback chain of the model, and of discovery over functions that forward to each other (theorems forged_total / depth_bounded over Model/Examine: on every closed call graph, cycles and modifiers-decorated functions included, the guarded examination returns and never nests deeper than the number of functions; the guard events are compared with the real ones by stream examine); the real retrieval is run over every '
                    'star-taking function and a seeded sample (thorough: all) of the ~2*10^4 callables of the importable standard library and installed packages plus adversarial sources, comparing the '
                    'outcome class with inspect.signature, checking that plain functions are only narrowed, and that the Sphinx hook returns two strings (partial).',
         level_note=NOTE + 'inspect / ast / getattr / Sphinx behaviour on real objects.',
